@@ -11,6 +11,7 @@ from datetime import datetime, timezone, timedelta
 
 from .. import pool
 
+W0_COUNTER = 'C17_verdicts'   # thorough tier: the repository's own tests run under this property's always-on monitor
 LEVEL = 'exploration'
 RULE = ('(i) exhaustive: case = block of forced issue bit-sets x {correct, wrong signature} x {1, 3 signatures}; one evaluation per verify call; '
         '(ii) case = (key, expiry state, revocation, subject kind, signature correctness); non-trivial = at least one disqualifying and one '
